@@ -204,6 +204,21 @@ func uniqueRouteStack(stack []*Route) []*Route {
 	return unique
 }
 
+// sanitizeHeaderValue replaces CR and LF so that a value can never start a new header line,
+// like fasthttp does for the header setters that take strings
+func sanitizeHeaderValue(val string) string {
+	if strings.IndexByte(val, '\r') == -1 && strings.IndexByte(val, '\n') == -1 {
+		return val
+	}
+	b := []byte(val)
+	for i := range b {
+		if b[i] == '\r' || b[i] == '\n' {
+			b[i] = ' '
+		}
+	}
+	return string(b)
+}
+
 // defaultString returns the value or a default value if it is set
 func defaultString(value string, defaultValue []string) string {
 	if len(value) == 0 && len(defaultValue) > 0 {
